@@ -23,7 +23,7 @@ SPEC = dict(
     rule="cases = the collector histories of C01/C02 (1-4 workers, ticks, ejections, late spans, reloads, resizes, stress-relief episodes); about a third start "
          "with DryRun on, 45 in 100 contain reloads of which 40 in 100 toggle DryRun; client sample rates 0,1,2,3,10; non-trivial = "
          "under dry run at least one span was forwarded with marker false (its trace would have been dropped) and one with "
-         "marker true; distinct by transcript hash",
+         "marker true; TraceTimeout/SendDelay drawn per case from (10 s,2 s),(60 s,0.1 s),(1 s,1 s),(2 s,2 s),(1 s,3 s),(1 s,60 s) - i.e. also TraceTimeout <= SendDelay, where 60 in 100 spans are roots (root-first and single-span traces); distinct by transcript hash",
     trusted_base=["clockwork.FakeClock", "transmit.MockTransmission as the recording transmission",
                   "harness gate between send() and the real sendTraces goroutine (zz_verif_collector.go)",
                   "hashicorp LRU modelled as textbook LRU, cuckoo filter + recent-drop set modelled as an exact set "
